@@ -335,6 +335,25 @@ theorem funcvalue_in_flight_witness :
       opsOf σ3' 1 = 0 ∧ ticksOf σ3' 1 = 0 := by
   decide
 
+/-- F09-3 without any race: native code started by the evaluation (a timer, a handler) calls an interpreted function
+    back. The goroutine of `Execute` is blocked in a receive; a second goroutine has the call of the wrapper in flight. -/
+def f093LateEntries : List Entry :=
+  [{ root := false, prog := .spawn .call (.step (.call .wrapperLate (.tick (.step .done)) (.step .done))) (.block .recv true .done) }]
+def f093LatePre : List Choice := [.run 0, .run 0, .run 0, .run 0, .run 0, .run 1, .run 1, .run 1, .run 1]
+
+/-- the cancellation releases the blocked `Execute`, which returns (the root frame takes the new id); the callback
+    that arrives afterwards gets that id: its body runs, host call included. When the callback arrives first (second
+    schedule) it is stale. -/
+theorem late_native_callback_witness :
+    let F := Generated.C09.facts
+    let σ1 := runSched F (start F 0 0 f093LateEntries) f093LatePre
+    let σ3 := runSched F (stepC F σ1 .stop) [.run 0, .run 0, .run 1, .run 1, .run 1, .run 1, .run 1, .run 1, .run 1, .run 1]
+    let σ3' := runSched F (stepC F σ1 .stop) [.run 1, .run 0, .run 0, .run 1, .run 1, .run 1, .run 1, .run 1, .run 1, .run 1]
+    σ1.watching = true ∧ Dom F σ1 = false ∧ armedOf σ1 1 = true ∧ opsOf σ1 1 = 1 ∧ ticksOf σ1 1 = 0 ∧
+      (σ1.gs[0]?.map (·.blocked)) = some (some (.recv, true)) ∧
+      opsOf σ3 1 = 4 ∧ ticksOf σ3 1 = 1 ∧ opsOf σ3' 1 = 2 ∧ ticksOf σ3' 1 = 0 := by
+  decide
+
 /-- the full-strength statement is false for the interpreter as it is (F09-3) -/
 theorem full_statement_false : ¬ C09_full_statement Generated.C09.facts := by
   intro h
